@@ -6,7 +6,7 @@ import "bufio"
 // Ops: `gb …` (the real CustomTriggerGroupBy with real trigger objects and real count/sum aggregates over a
 // scripted source).  See util_triggers.go.
 func init() {
-	register("C16", &prop{gen: genC16, drive: driveTrigProps})
+	register("C16", &prop{gen: genC16All, drive: driveC16})
 }
 
 func genC16(g *Gen, tier string, w *bufio.Writer) {
